@@ -88,9 +88,32 @@ def topology_grid(ux, spec):
         # the source supplies its own edge tables (own edge numbering, either order of the two faces)
         kw["edge_node_connectivity"] = np.asarray(spec["edge_nodes"], dtype=np.int64).reshape(-1, 2).copy()
         kw["edge_face_connectivity"] = np.asarray(spec["edge_faces"], dtype=np.int64).reshape(-1, 2).copy()
-    return ux.Grid.from_topology(
-        node_lon=np.asarray(spec["node_lon"], float), node_lat=np.asarray(spec["node_lat"], float),
-        face_node_connectivity=m.table().copy(), fill_value=INT_FILL, **kw)
+    # the FORM in which the source gives coordinates: Cartesian positions of any radius
+    for k in ("node", "face", "edge"):
+        if spec.get(f"{k}_xyz") is not None:
+            a = np.asarray(spec[f"{k}_xyz"], float).reshape(-1, 3)
+            kw[f"{k}_x"], kw[f"{k}_y"], kw[f"{k}_z"] = a[:, 0].copy(), a[:, 1].copy(), a[:, 2].copy()
+    if spec.get("edge_lon") is not None:
+        kw["edge_lon"], kw["edge_lat"] = np.asarray(spec["edge_lon"], float), np.asarray(spec["edge_lat"], float)
+    if spec.get("node_form", "ll") != "xyz":
+        return ux.Grid.from_topology(
+            node_lon=np.asarray(spec["node_lon"], float), node_lat=np.asarray(spec["node_lat"], float),
+            face_node_connectivity=m.table().copy(), fill_value=INT_FILL, **kw)
+    # Cartesian-only nodes: a dataset in the internal (UGRID) naming through Grid.from_dataset
+    import xarray as xr
+    from uxarray.conventions import ugrid
+
+    ds = xr.Dataset()
+    kw["face_node_connectivity"] = m.table().copy()
+    for name, arr in kw.items():
+        if name in ugrid.SPHERICAL_COORD_NAMES:
+            sp = ugrid.SPHERICAL_COORDS[name]
+        elif name in ugrid.CARTESIAN_COORD_NAMES:
+            sp = ugrid.CARTESIAN_COORDS[name]
+        else:
+            sp = ugrid.CONNECTIVITY[name]
+        ds[name] = xr.DataArray(data=arr, dims=sp["dims"], attrs=sp["attrs"])
+    return ux.Grid.from_dataset(ds, source_grid_spec="User Defined Topology")
 
 
 def mpas_dataset(spec):
@@ -222,6 +245,81 @@ def supplied_tables(src):
 # --------------------------------------------------------------------------------------
 
 
+PRE_OPS = ["node_lonlat", "node_xyz", "face_lonlat", "face_xyz", "edge_lonlat", "edge_xyz", "normalize", "edge_tables"]
+
+
+def apply_history(ctx, g, src):
+    """the access history of the source description: reads / normalize_cartesian_coordinates() in the
+    stored order, THEN the two distance tables in the stored order, before anything else is read.
+    Returns {name: values | exception} or None when the source prescribes no history."""
+    if "pre" not in src:
+        return None
+    for op in src["pre"]:
+        try:
+            if op == "normalize":
+                g.normalize_cartesian_coordinates()
+            elif op == "edge_tables":
+                g.edge_node_connectivity.values, g.edge_face_connectivity.values
+            else:
+                k, form = op.split("_")
+                for c in (("lon", "lat") if form == "lonlat" else ("x", "y", "z")):
+                    getattr(g, f"{k}_{c}").values
+            ctx.hit("history:" + op)
+        except Exception as e:  # coordinate access itself is C04's subject
+            ctx.notes.append(f"{src.get('tag')}: pre-access {op} raised {type(e).__name__}: {e}")
+    if not src["pre"]:
+        ctx.hit("history:distances-read-first")
+    raw = {}
+    for name in src.get("dist_order", ["edge_node_distances", "edge_face_distances"]):
+        try:
+            v = getattr(g, name)
+            raw[name] = (np.asarray(v.values), tuple(v.dims))
+        except Exception as e:
+            raw[name] = e
+    return raw
+
+
+def draw_history(rng, src, edge_coords=False):
+    ops = [o for o in PRE_OPS if edge_coords or not o.startswith("edge_l") and o != "edge_xyz"]
+    k = rng.choice([0, 0, 1, 2, 3])
+    src["pre"] = rng.sample(ops, k)
+    src["dist_order"] = rng.sample(["edge_node_distances", "edge_face_distances"], 2)
+    return src
+
+
+def truth_of(src):
+    """the positions the SOURCE supplied, in the form it supplied them: the oracle measures between
+    these directions.  None: the grid derives the positions itself (then the grid's own report is used)."""
+    t = dict(node=None, face=None)
+    mesh = src.get("mesh") if src.get("source") == "topology" else None
+    if not isinstance(mesh, dict):
+        return t
+    for k in ("node", "face"):
+        if mesh.get(f"{k}_xyz") is not None:
+            t[k] = ("xyz", np.asarray(mesh[f"{k}_xyz"], float).reshape(-1, 3))
+        elif mesh.get(f"{k}_lon") is not None:
+            t[k] = ("ll", np.asarray(mesh[f"{k}_lon"], float), np.asarray(mesh[f"{k}_lat"], float))
+    return t
+
+
+def enc_pos(pos):
+    if pos[0] == "xyz":
+        a = pos[1]
+        return " ".join(enc_floats(fl(a[:, i])) for i in range(3))
+    return enc_floats(fl(pos[1])) + " " + enc_floats(fl(pos[2]))
+
+
+def ask_dist(d, kind, pos, eps, enc_table, impl):
+    """verdict of the Lean driver on one distance table against the geodesic oracle on `pos`"""
+    cmd = f"C16.dist.{kind}" + (".xyz" if pos[0] == "xyz" else "")
+    return d.ask(cmd, enc_float(eps), enc_pos(pos), enc_table, enc_floats(fl(impl))).split()
+
+
+def ask_oracle(d, kind, pos, enc_table):
+    cmd = f"C16.oracle.{kind}" + (".xyz" if pos[0] == "xyz" else "")
+    return common.Tok(d.ask(cmd, enc_pos(pos), enc_table)).floats()
+
+
 class Obs:
     pass
 
@@ -246,6 +344,19 @@ def observe(ctx, g, src):
         ctx.notes.append(f"{src.get('tag')}: edge tables index out of range (C02/C03's subject): not judged")
         return None
     o.interior = o.ef[:, 1] != INT_FILL
+    t = truth_of(src)
+    o.node_pos = t["node"] if t["node"] is not None else ("ll", o.node_lon, o.node_lat)
+    o.face_pos = t["face"] if t["face"] is not None else ("ll", o.face_lon, o.face_lat)
+    if src.get("source") == "file" and "exodus" in src.get("file", ""):
+        # an Exodus file gives the nodes as Cartesian positions (radii need not be 1): measure between those
+        o.node_pos = ("xyz", np.stack([np.asarray(g.node_x.values, float), np.asarray(g.node_y.values, float),
+                                       np.asarray(g.node_z.values, float)], axis=1))
+    for k, pos in (("node", o.node_pos), ("face", o.face_pos)):
+        if pos[0] == "xyz":
+            r = np.linalg.norm(pos[1], axis=1)
+            ctx.hit(f"coords:{k}:xyz:" + ("unit" if np.allclose(r, 1, atol=1e-12) else "one-radius" if np.allclose(r, r[0], rtol=1e-12) else "mixed-radii"))
+        else:
+            ctx.hit(f"coords:{k}:" + ("lonlat-supplied" if t[k] is not None or k == "node" else "derived-by-the-grid"))
     mesh = src.get("mesh")
     if isinstance(mesh, dict) and mesh.get("edge_faces") is not None:
         sup_ef = np.asarray(src["mesh"]["edge_faces"], dtype=np.int64).reshape(-1, 2)
@@ -263,18 +374,23 @@ def sig_clean(s):
     return s.replace(",", "+")
 
 
-def judge_distances(ctx, g, o, src, inp0):
-    """edge_node_distances / edge_face_distances"""
+def judge_distances(ctx, g, o, src, inp0, raw=None):
+    """edge_node_distances / edge_face_distances (`raw`: already read by the source's access history)"""
     d = ctx.driver
     sup = supplied_tables(src)
     res = {}
     for name in ("edge_node_distances", "edge_face_distances"):
         try:
-            v = getattr(g, name)
-            res[name] = np.asarray(v.values)
-            if tuple(v.dims) != ("n_edge",) or res[name].shape != (o.n_edge,):
-                ctx.fail(f"C16/{name}/dims", f"{name} has dims {v.dims} shape {res[name].shape}, want (n_edge,)={o.n_edge}",
-                         dict(inp0, op=name), dict(dims=list(v.dims), shape=list(res[name].shape)), None, ["result_dims"])
+            if raw is not None:
+                if isinstance(raw[name], Exception):
+                    raise raw[name]
+                res[name], dims = raw[name]
+            else:
+                v = getattr(g, name)
+                res[name], dims = np.asarray(v.values), tuple(v.dims)
+            if tuple(dims) != ("n_edge",) or res[name].shape != (o.n_edge,):
+                ctx.fail(f"C16/{name}/dims", f"{name} has dims {dims} shape {res[name].shape}, want (n_edge,)={o.n_edge}",
+                         dict(inp0, op=name), dict(dims=list(dims), shape=list(res[name].shape)), None, ["result_dims"])
                 res[name] = None
         except Exception as e:
             ctx.fail(f"C16/{name}/raises/{type(e).__name__}", f"Grid.{name} raises {type(e).__name__}: {e}", dict(inp0, op=name))
@@ -311,7 +427,7 @@ def judge_distances(ctx, g, o, src, inp0):
 
     # computed: against the geodesic oracle on the edge's OWN elements
     if dn is not None:
-        out = d.ask("C16.dist.node", enc_float(o.eps), enc_floats(fl(o.node_lon)), enc_floats(fl(o.node_lat)), o.enc_en, enc_floats(fl(dn))).split()
+        out = ask_dist(d, "node", o.node_pos, o.eps, o.enc_en, dn)
         k = "max_err_edge_node_distances" + ("" if o.eps < 1e-12 else "(float32 coordinates)")
         ctx.extra[k] = max(ctx.extra.get(k, 0.0), common.dec_float(out[3]))
         ctx.extra["max_diff_from_law_of_cosines_model"] = max(ctx.extra.get("max_diff_from_law_of_cosines_model", 0.0), common.dec_float(out[4]))
@@ -320,17 +436,17 @@ def judge_distances(ctx, g, o, src, inp0):
             ctx.fail("C16/edge_node_distances/" + sig_clean(out[1]),
                      f"edge_node_distances[{e}]={fl(dn)[e] if e < len(dn) else None} is not the arc between edge {e}'s two nodes {o.en[e].tolist() if e < len(o.en) else None} (max error {common.dec_float(out[3]):.3g})",
                      dict(inp0, op="edge_node_distances"), dict(edge_node_distances=fl(dn)),
-                     dict(oracle=common.Tok(d.ask("C16.oracle.node", enc_floats(fl(o.node_lon)), enc_floats(fl(o.node_lat)), o.enc_en)).floats()),
+                     dict(oracle=ask_oracle(d, "node", o.node_pos, o.enc_en)),
                      out[1].split(","))
     if df is not None:
-        out = d.ask("C16.dist.face", enc_float(o.eps), enc_floats(fl(o.face_lon)), enc_floats(fl(o.face_lat)), o.enc_ef, enc_floats(fl(df))).split()
+        out = ask_dist(d, "face", o.face_pos, o.eps, o.enc_ef, df)
         if out[0] == "ok":
             k = "max_err_edge_face_distances" + ("" if o.eps < 1e-12 else "(float32 coordinates)")
             ctx.extra[k] = max(ctx.extra.get(k, 0.0), common.dec_float(out[3]))
             ctx.extra["max_diff_from_law_of_cosines_model"] = max(ctx.extra.get("max_diff_from_law_of_cosines_model", 0.0), common.dec_float(out[4]))
         else:
             e = int(out[2])
-            oracle = common.Tok(d.ask("C16.oracle.face", enc_floats(fl(o.face_lon)), enc_floats(fl(o.face_lat)), o.enc_ef)).floats()
+            oracle = ask_oracle(d, "face", o.face_pos, o.enc_ef)
             # diagnosis: does it coincide with the as-is model (node arrays read at face numbers)?
             asis = np.array(common.Tok(d.ask("C16.model.face.asis", enc_floats(fl(o.node_lon)), enc_floats(fl(o.node_lat)), o.enc_ef)).floats())
             inr = o.interior & (o.ef[:, 0] < o.n_node) & (o.ef[:, 1] < o.n_node)
@@ -447,7 +563,7 @@ def judge_ops(ctx, g, o, src, inp0, df, ux, cases=None):
                              inp, obs, dict(face_distance_table=fl(want)[:12]), ["grad_eq_diff_div_dist"])
             else:
                 if oracle_face is None:
-                    oracle_face = common.Tok(d.ask("C16.oracle.face", enc_floats(fl(o.face_lon)), enc_floats(fl(o.face_lat)), o.enc_ef)).floats()
+                    oracle_face = ask_oracle(d, "face", o.face_pos, o.enc_ef)
                 r = d.ask("C16.grad.oracle", enc_float(o.eps), o.enc_ef, enc_floats(oracle_face), nLead, n, dflat, oflat)
                 if r != "ok":
                     t = r.split()
@@ -492,10 +608,11 @@ def judge(ctx, src, ops=True):
         ctx.notes.append(f"{src.get('tag')}: grid could not be built ({type(e).__name__}: {e}): skipped")
         ctx.hit("grid:build-failed")
         return
+    raw = apply_history(ctx, g, src)
     o = observe(ctx, g, src)
     if o is None:
         return
-    df = judge_distances(ctx, g, o, src, inp0)
+    df = judge_distances(ctx, g, o, src, inp0, raw)
     if ops:
         judge_ops(ctx, g, o, src, inp0, df, ux)
 
@@ -561,6 +678,62 @@ def edges_src(m, rng, supply_centres):
     return src
 
 
+def radii(rng, kind, n):
+    if kind == "unit":
+        return np.ones(n)
+    if kind == "R":
+        return np.full(n, rng.choice([6371229.0, 0.5, 2.5, 0.97]))
+    return np.array([rng.uniform(0.9, 1.1) for _ in range(n)])  # mixed radii (cf. exodus/mixed: 0.967..1)
+
+
+def forms_src(m, rng):
+    """the FORM in which the source gives coordinates is a random dimension: nodes as lon/lat, as
+    Cartesian positions (unit / one radius R / mixed radii) or both; face centres absent, lon/lat,
+    Cartesian (any radius), both, or the un-normalised mean of the corner nodes; edge centres
+    likewise when the source has its own edge tables; plus a random access history."""
+    src = edges_src(m, rng, False) if rng.random() < 0.4 else None
+    if src is None:
+        src = topo_src(m, rng, False)
+    mesh = src["mesh"]
+    nf = rng.choice(["ll", "xyz", "xyz", "both"])
+    mesh["node_form"] = nf
+    tag = [f"node={nf}"]
+    if nf != "ll":
+        kind = rng.choice(["unit", "R", "mixed", "mixed"])
+        mesh["node_xyz"] = (m.xyz * radii(rng, kind, m.n_node)[:, None]).tolist()
+        tag[-1] += f"({kind})"
+    ff = rng.choice(["none", "ll", "xyz", "xyz", "xyz", "both", "mean"])
+    tag.append(f"face={ff}")
+    if ff == "mean":
+        mesh["face_xyz"] = [m.xyz[f].mean(axis=0).tolist() for f in m.faces]
+    elif ff != "none":
+        lon, lat = centroid_lonlat(m)
+        lon = [float(x + rng.uniform(-0.4, 0.4)) for x in lon]
+        lat = [float(min(89.0, max(-89.0, y + rng.uniform(-0.4, 0.4)))) for y in lat]
+        if ff in ("ll", "both"):
+            mesh["face_lon"], mesh["face_lat"] = lon, lat
+        if ff in ("xyz", "both"):
+            kind = rng.choice(["unit", "R", "R", "mixed"])
+            d = np.array([meshes._ll(a, b) for a, b in zip(lon, lat)])
+            mesh["face_xyz"] = (d * radii(rng, kind, m.n_face)[:, None]).tolist()
+            tag[-1] += f"({kind})"
+    edge_coords = False
+    if mesh.get("edge_nodes") is not None:
+        efm = rng.choice(["none", "ll", "xyz"])
+        tag.append(f"edge={efm}")
+        if efm != "none":
+            edge_coords = True
+            mid = np.array([m.xyz[a] + m.xyz[b] for a, b in mesh["edge_nodes"]])
+            mid /= np.linalg.norm(mid, axis=1, keepdims=True)
+            if efm == "ll":
+                mesh["edge_lon"] = np.degrees(np.arctan2(mid[:, 1], mid[:, 0])).tolist()
+                mesh["edge_lat"] = np.degrees(np.arcsin(np.clip(mid[:, 2], -1, 1))).tolist()
+            else:
+                mesh["edge_xyz"] = (mid * radii(rng, rng.choice(["unit", "R", "mixed"]), len(mid))[:, None]).tolist()
+    src["tag"] = m.kind + ("+supplied-edges" if mesh.get("edge_nodes") is not None else "") + "+forms[" + ",".join(tag) + "]"
+    return draw_history(rng, src, edge_coords)
+
+
 def regular_closed(rng):
     """closed meshes whose nodes all have the same valence (so that the MPAS dual is well formed)"""
     return [meshes.dual_of(meshes.hull(rng.choice([9, 12, 16, 20]), rng)), meshes.prism(rng.choice([3, 4, 5, 6])),
@@ -570,13 +743,17 @@ def regular_closed(rng):
 def run(ctx):
     rng = ctx.rng
     ctx.rule = ("grids: 5 tiny + harness/meshes.zoo (closed and partial, triangulations with n_face>n_node, duals/patches with "
-                "n_face<n_node, all-boundary grids), built by Grid.from_topology with and without supplied face centres, and again with SOURCE-SUPPLIED edge_node/edge_face "
+                "n_face<n_node, all-boundary grids), built by Grid.from_topology with and without supplied face centres; again with the FORM of the supplied coordinates drawn at random "
+                "(nodes lon/lat | xyz unit / radius R / mixed radii | both; face centres absent | lon/lat | xyz any radius | both | un-normalised corner "
+                "mean; edge centres likewise; Cartesian-only nodes through Grid.from_dataset) and a random access history (coordinate reads, "
+                "normalize_cartesian_coordinates(), order of the two distance reads) before the tables are read; and again with SOURCE-SUPPLIED edge_node/edge_face "
                 "connectivity (own edge order, the two faces of an edge in either order, face 0 listed second, no distances); synthetic MPAS "
                 "files (own edge numbering, dvEdge/dcEdge supplied) read as primal and as dual mesh; the MPAS sample file. Per grid: both "
                 "distance tables, difference of face and of node data, gradient with/without normalisation on float/int/constant data of "
                 "rank 1..4. distinct = distinct (grid tables, op, shape, data); non-trivial = grid has a two-face edge and data not constant")
     ctx.assumptions = [
-        "face centres are the grid's own face_lon/face_lat (their correctness is C04's subject)",
+        "centres are the positions the source supplied (as directions: the oracle is scale invariant, Lean oracleAngle_scale_invariant / "
+        "dirDist_scale_invariant); where the source supplies none, the grid's own face_lon/face_lat (their correctness is C04's subject)",
         "float clauses: |impl - oracle| <= 64 eps / max(sin d, sqrt eps) + 64 eps (1+d)  (conditioning of arccos), eps of the coordinate dtype; "
         "normalisation 1e-12; IEEE rounding and libm are modelled, not verified",
         "element dimension is the last one; zero-gradient slices (0/0) are not judged for unit norm",
@@ -593,7 +770,13 @@ def run(ctx):
         ms += meshes.zoo(rng, big=True)[-4:]
         ms += [meshes.cube_sphere(6), meshes.hull(150, rng), meshes.dual_of(meshes.hull(120, rng))]
     for i, m in enumerate(ms):
-        judge(ctx, topo_src(m, rng, supply_centres=(i % 2 == 1)))
+        judge(ctx, draw_history(rng, topo_src(m, rng, supply_centres=(i % 2 == 1))))
+    # the form in which coordinates are supplied (lon/lat, Cartesian of any radius, un-normalised means) × access history
+    fs = tiny() + meshes.zoo(rng, big=False)
+    for rep_ in range(ctx.n(0, 6)):
+        fs += meshes.zoo(rng, big=False)
+    for m in fs:
+        judge(ctx, forms_src(m, rng))
     # source-supplied edge tables (own edge order, faces of an edge in either order), no distances
     es = tiny() + meshes.zoo(rng, big=False)
     for rep_ in range(ctx.n(0, 4)):
@@ -603,7 +786,7 @@ def run(ctx):
             m = m.renumber(rng)  # which face is face 0 varies
         src = edges_src(m, rng, supply_centres=(i % 3 == 2))
         if src is not None:
-            judge(ctx, src)
+            judge(ctx, draw_history(rng, src))
     # source-supplied distances
     prim = [meshes.patch(2, 2), meshes.fan(5), meshes.cube_sphere(2).drop_faces(rng, 0.3)] + (regular_closed(rng) + (regular_closed(rng) if ctx.thorough else []))[: ctx.n(3, 12)]
     for m in prim:
@@ -622,7 +805,8 @@ def run(ctx):
         ctx.notes.append("MPAS sample file missing: file-supplied case skipped")
     if ctx.thorough or ctx.escalate:
         for f in ("test/meshfiles/ugrid/quad-hexagon/grid.nc", "test/meshfiles/ugrid/outCSne30/outCSne30.ug",
-                  "test/meshfiles/ugrid/geoflow-small/grid.nc"):
+                  "test/meshfiles/ugrid/geoflow-small/grid.nc", "test/meshfiles/exodus/mixed/mixed.exo",
+                  "test/meshfiles/exodus/outCSne8/outCSne8.g"):
             if (common.REPO / f).exists():
                 judge(ctx, dict(source="file", file=f, tag="file:" + f.split("/")[-2]))
 
@@ -644,18 +828,19 @@ def rerun(ctx, inp):
     except Exception as e:
         ctx.notes.append(f"stored input {src.get('tag')}: grid could not be built ({type(e).__name__}: {e}): skipped")
         return
+    raw = apply_history(ctx, g, src)
     o = observe(ctx, g, src)
     if o is None:
         return
     inp0 = dict(grid=src)
     if inp.get("op") in ("difference", "gradient"):
         try:
-            df = np.asarray(g.edge_face_distances.values)
+            df = np.asarray(g.edge_face_distances.values) if raw is None else raw["edge_face_distances"][0]
         except Exception:
             df = None
         judge_ops(ctx, g, o, src, inp0, df, ux, cases=[inp])
     else:
-        judge_distances(ctx, g, o, src, inp0)
+        judge_distances(ctx, g, o, src, inp0, raw)
 
 
 def replay(ctx, rp):
